@@ -39,7 +39,13 @@ type Case struct {
 	Faults []Fault `json:"faults"`
 	End    string  `json:"end"`             // unlock | death | race_before | race_after
 	EndK   int     `json:"end_k,omitempty"` // race_*: the renewal call the Unlock races with
-	Jit    uint64  `json:"jit"`
+	// scenario (v): race_* followed by a NEW HOLDER: contender 3 (its own provider, lease 1 h so
+	// that it never renews within the scenario) acquires right after the Unlock - "before" or
+	// "after" the gate lets the parked renewal call go on - and holds for ContU units of TTL/24
+	// (>= 3 lease periods). Whatever the finished tenure still sends to the storage is recorded.
+	Cont  string `json:"cont,omitempty"`
+	ContU int    `json:"cont_u,omitempty"`
+	Jit   uint64 `json:"jit"`
 }
 
 type outcome struct {
@@ -50,6 +56,7 @@ type outcome struct {
 	lapseWhat   string
 	lateRelease bool
 	acquired2   bool
+	contFail    bool
 	dl, ep      int64
 	k           int64
 	premise     bool
@@ -93,7 +100,12 @@ func runScenario(cs Case) (o *outcome) {
 		o.fatal = "VerifSetLeaseTTL: not a kvs lock provider"
 		return
 	}
-	holder, l1, l2 := pH.NewLocker("L"), p1.NewLocker("L"), p2.NewLocker("L")
+	p3 := dist.NewKvsLockProvider(contView{c, 3}, "/verif/")
+	if !dist.VerifSetLeaseTTL(p3, time.Hour) {
+		o.fatal = "VerifSetLeaseTTL: not a kvs lock provider"
+		return
+	}
+	holder, l1, l2, l3 := pH.NewLocker("L"), p1.NewLocker("L"), p2.NewLocker("L"), p3.NewLocker("L")
 	start := time.Now()
 	ctx, cancel := context.WithCancel(context.Background())
 	var wg sync.WaitGroup
@@ -191,8 +203,42 @@ func runScenario(cs Case) (o *outcome) {
 		}
 		c.mark(kUnlock)
 		holder.Unlock()
-		close(c.release)
-		time.Sleep(3*ttl + ttl/4)
+		if cs.Cont == "" {
+			close(c.release)
+			time.Sleep(3*ttl + ttl/4)
+			break
+		}
+		// (v) a new holder takes over while the finished tenure still has a renewal call under way
+		acquire3 := func() bool {
+			ctx3, cancel3 := context.WithTimeout(ctx, ttl+releaseMargin)
+			defer cancel3()
+			ok := false
+			func() {
+				defer func() { recover() }()
+				ok = l3.LockWithCtx(ctx3) == nil
+			}()
+			return ok
+		}
+		ok3 := false
+		if cs.Cont == "before" {
+			ok3 = acquire3()
+			close(c.release)
+		} else {
+			close(c.release)
+			time.Sleep(time.Duration(prng.New(cs.Jit, "C05cont", 0).Intn(int(ttl/5) + 1)))
+			ok3 = acquire3()
+		}
+		if !ok3 {
+			o.contFail = true
+			time.Sleep(ttl / 2)
+			break
+		}
+		time.Sleep(time.Duration(cs.ContU) * ttl / 24)
+		func() {
+			defer func() { recover() }()
+			l3.Unlock()
+		}()
+		time.Sleep(ttl / 2)
 	case "death":
 		acq2 := make(chan struct{})
 		ctx2, cancel2 := context.WithCancel(ctx)
@@ -455,6 +501,15 @@ func runWithPolicy(cs Case, tl *tally) *outcome {
 				// the lease lapsed although the measured timing met the premise of lease_kept
 				return o
 			}
+			if o.failCode == 6 {
+				// "at most once": the chain of the finished tenure had ended (its call was answered
+				// NotExist/Conflict after Unlock) and yet another renewal of it started. No delay of
+				// timers or calls can produce a call that the code does not issue.
+				return o
+			}
+		}
+		if o.contFail {
+			disturbed = true
 		}
 		anyNoisy = anyNoisy || noisy || disturbed
 		tl.mu.Lock()
@@ -495,7 +550,7 @@ func estimate(cs Case) time.Duration {
 	ttl := time.Duration(cs.TTLms) * time.Millisecond
 	d := time.Duration(cs.HoldU) * ttl / 24
 	if strings.HasPrefix(cs.End, "race") {
-		d = time.Duration(cs.EndK) * ttl / 2
+		d = time.Duration(cs.EndK)*ttl/2 + time.Duration(cs.ContU)*ttl/24
 	}
 	return d + 4*ttl
 }
@@ -611,6 +666,23 @@ func generate(seed uint64, thorough bool) []Case {
 			}
 			// Unlock while the error of a lost request is on its way back
 			add(Case{TTLms: ttl, Acq: acq(), End: "race_after", EndK: 2, Faults: []Fault{{K: 2, Kind: "req"}}})
+			// (v) like (iv), then a new holder acquires at once and holds for 3..4 lease periods
+			type vc struct {
+				pos, cont string
+			}
+			combos := []vc{{"race_after", "before"}, {"race_after", "after"}, {"race_before", "before"}, {"race_before", "after"}}
+			nv := 2
+			if thorough {
+				nv = 4
+			}
+			off := r.Intn(4)
+			for i := 0; i < nv; i++ {
+				x := combos[(off+i)%4]
+				if !thorough && i == 0 {
+					x = combos[r.Intn(3)] // one of the three in which the stale call meets the new holder's record
+				}
+				add(Case{TTLms: ttl, Acq: acq(), End: x.pos, EndK: r.Range(1, 3), Cont: x.cont, ContU: r.Range(72, 96)})
+			}
 		}
 	}
 	return cases
@@ -674,6 +746,8 @@ func main() {
 				what = "the lease of the live holder was not in force"
 			} else if o.failCode == 5 {
 				what = "the lock of a dead holder was not handed over"
+			} else if o.failCode == 6 {
+				what = "renewal of a finished tenure does not die out after Unlock"
 			}
 			s.DirectViolation(cs.ID, what, map[string]any{"reason": o.failText, "measured_lateness_ms": float64(o.dl) / 1e6,
 				"measured_latency_ms": float64(o.ep) / 1e6, "lost_in_a_row": o.k, "premise_of_lease_kept_met": o.premise,
@@ -699,6 +773,9 @@ func main() {
 		}
 		if strings.HasPrefix(cs.End, "race") {
 			s.Count(fmt.Sprintf("race-renewal:%d", cs.EndK))
+		}
+		if cs.Cont != "" {
+			s.Count("new-holder-after-unlock:" + cs.End + "/" + cs.Cont)
 		}
 		periods := cs.HoldU / 24
 		switch {
